@@ -57,4 +57,6 @@ def cycle(theta):
 
 @builtin
 def random(min, max):
-    return py_random.randint(min, max)
+    # The limits can be floats (a register, a quotient); randint() accepts
+    # whole numbers only. The result is an integer n with min <= n <= max.
+    return py_random.randint(math.ceil(min), math.floor(max))
